@@ -175,6 +175,8 @@ fn seeded_case(r: &mut Prng, big: bool) -> Case {
                 0 | 1 => REENTRANT_DESC + next_id,
                 // a descriptor may render its node as the empty string
                 2 => EMPTY_DESC + next_id,
+                // a descriptor that describes a tree containing (possibly) its own key, limiting its own recursion
+                3 => SELF_DESC + next_id,
                 _ => next_id,
             };
             let op = Op::SetDesc { kind: k, name, id };
